@@ -26,7 +26,7 @@ RULE = ("kinds: rel (a partially observed screen built with the real Screen cons
         "SparseDrugCombo and SparseDrugComboInteraction, then seeded sampler steps, all distance chunks, all score chunks "
         "(GaussianDBALScorer / SizeScorer, random chunk counts and batches) and select_next_plate; the two runs are compared "
         "bit-for-bit with each other and the training arrays / single-effect lookup with the model); refuse (a negative / "
-        "NaN / -inf / edge value planted in an observed row, or masked rows handed to add_observations directly); inner "
+        "NaN / -inf / edge value planted in an observed row, or masked rows handed to add_observations directly - as the screen, or as the Plate-typed union of its plates); inner "
         "(_add_observations called directly, correspondence only); cli (batchie.cli.train_model.main in-process on both "
         "screens).  Non-trivial: at least one masked and one observed row (rel/cli) or a planted value (refuse); distinct "
         "by canonical case description.")
@@ -207,6 +207,10 @@ def feed(m, screen, via):
                     m.add_observations(sub)
             elif via == 0:
                 m.add_observations(screen)
+            elif via == 4:
+                # the whole screen as the union of its plates (a Plate-typed composed view): same rows as via 0
+                from batchie.data import ScreenSubset
+                m.add_observations(ScreenSubset.concat(list(screen.plates)))
             elif via == 3:
                 # the observed experiments handed over in two or three consecutive pieces (as when plates arrive one by one):
                 # same rows, same order, so the training state must be the one of the single call
@@ -586,6 +590,13 @@ def gen(rng, tier):
             planted = rng.choice([-0.5, -3.0, -1e-300, -5e-324, "nan", "nan", "-inf", -1.0, -0.0, "inf", 1e300, 2.0, 1.0 + 2.0 ** -20])
             sd["rows"][i]["o"] = planted
         yield dict(kind="refuse", model=model, via=via, screen=sd, planted=planted)
+    # the union of the screen's plates handed to add_observations: mixed observation states, observed plate first or not
+    for i in range(60 if q else 400):
+        sd = gen_structured(rng, tier)
+        if rng.random() < 0.2:
+            for r in sd["rows"]:
+                r["m"] = True
+        yield dict(kind="refuse", model=rng.choice([SDC, INT]), via=4, screen=sd, planted=None)
     # _add_observations called directly (correspondence only)
     for i in range(50 if q else 400):
         sd = gen_structured(rng, tier) if rng.random() < 0.6 else gen_unstructured(rng, tier)
@@ -822,6 +833,9 @@ def run(desc):
         via = desc["via"]
         ra = wire_rows(sa)
         ia = train_result(model, sa, via)
+        if via == 4:
+            feats.append("union-of-plates-handed-over")
+            via = 0       # for the model and the predicate: add_observations on all rows of the screen
         wire = [req(model, via, ra, arity, flags)] + ([req(model, via, ra, arity, repaired)] if model == INT else [])
         pred = None
         if via == 0:
